@@ -1129,7 +1129,7 @@ def run(ctx: core.Ctx):
         ops = [s["op"] for s in c.get("history", [])]
         ctx.violation("real behaviour violates C07: " + cls, {"case": c, "detail": w}, kind="concrete",
                       match_info={"failure": cls, "last_ops": ops[-2:] if ops else None})
-    if not concrete:
+    if not ctx.violations:  # no NEW concrete violation (none at all, or only ones a registered known finding describes)
         if broken:
             c, w = broken[0]
             ctx.violation("correspondence Cache model <-> DatabaseAPI cache no longer checks",
